@@ -1,5 +1,5 @@
 import CapyV.Spec.Defer
-/-! Helper definitions and lemmas for C03 (defer unwinding). -/
+/-! Helper definitions and lemmas for C03 (defer unwinding, deferred expressions are blocks). -/
 namespace CapyV.Defer
 
 /-! ### `St.emit(s)` -/
@@ -41,11 +41,16 @@ def pushLabel (label : Option Nat) (ctx : Ctx) : Ctx :=
   | none => ctx
 
 mutual
-/-- What HIR label resolution guarantees: every `brk l` / `tryS l` is inside a construct
-labelled `l`; for every `cont l` the innermost enclosing construct labelled `l` is a loop. -/
+/-- What HIR label resolution guarantees (`crates/hir/src/body.rs`, `resolve_last_label` /
+`resolve_first_label`): every `brk l` / `tryS l` is inside a construct labelled `l`; for every
+`cont l` the innermost enclosing construct labelled `l` is a loop; and label resolution never
+passes a `defer` boundary (`ScopeKind::Defer`): inside a deferred body every jump targets a
+loop / labelled block INSIDE that body, so resolution starts afresh there. (A `tryS l` inside
+a deferred body that targets a label inside the body is accepted here although Capy cannot
+write it: the predicate is a superset of what HIR accepts.) -/
 def wellScopedStmt : Stmt → Ctx → Bool
   | .print _, _ => true
-  | .defer _, _ => true
+  | .defer b, _ => wellScoped b []
   | .block label body, ctx => wellScoped body (pushLabel label ctx)
   | .loop label body, ctx => wellScoped body ((label, true) :: ctx)
   | .ifS body, ctx => wellScoped body ctx
@@ -58,11 +63,12 @@ def wellScoped : Stmts → Ctx → Bool
 end
 
 mutual
-/-- The part of `wellScoped` the proof needs: for no `cont l` is the innermost enclosing
-construct labelled `l` a plain block. Nothing is demanded of `brk` / `tryS`. -/
+/-- The part of `wellScoped` the proof needs: a deferred body is fully closed (`wellScoped`
+on its own), and outside deferred bodies for no `cont l` is the innermost enclosing construct
+labelled `l` a plain block. Nothing is demanded of `brk` / `tryS` outside deferred bodies. -/
 def contScopedStmt : Stmt → Ctx → Bool
   | .print _, _ => true
-  | .defer _, _ => true
+  | .defer b, _ => wellScoped b []
   | .block label body, ctx => contScoped body (pushLabel label ctx)
   | .loop label body, ctx => contScoped body ((label, true) :: ctx)
   | .ifS body, ctx => contScoped body ctx
@@ -76,7 +82,8 @@ end
 
 mutual
 theorem wellScopedStmt_contScoped : (s : Stmt) → ∀ ctx, wellScopedStmt s ctx = true → contScopedStmt s ctx = true
-  | .print _ | .defer _ | .brk _ | .tryS _ => by intro ctx _; simp [contScopedStmt]
+  | .print _ | .brk _ | .tryS _ => by intro ctx _; simp [contScopedStmt]
+  | .defer b => by intro ctx h; simpa [contScopedStmt, wellScopedStmt] using h
   | .block label body => by
     intro ctx h; simp only [wellScopedStmt] at h; simp only [contScopedStmt]
     exact wellScoped_contScoped body _ h
@@ -97,13 +104,37 @@ theorem wellScoped_contScoped : (ss : Stmts) → ∀ ctx, wellScoped ss ctx = tr
     exact ⟨wellScopedStmt_contScoped s ctx h.1, wellScoped_contScoped rest ctx h.2⟩
 end
 
+/-- a deferred body all of whose jumps stay inside it -/
+abbrev Closed (b : Stmts) : Prop := wellScoped b [] = true
+
+theorem lookupLabel_push_ne (l : Nat) (label : Option Nat) (ctx : Ctx) (h : ¬ label = some l) :
+    lookupLabel l (pushLabel label ctx) = lookupLabel l ctx := by
+  cases label with
+  | none => rfl
+  | some lab =>
+    have : ¬ lab = l := fun e => h (by rw [e])
+    simp [pushLabel, lookupLabel, this]
+
+theorem lookupLabel_push_eq (l : Nat) (ctx : Ctx) :
+    lookupLabel l (pushLabel (some l) ctx) = some false := by
+  simp [pushLabel, lookupLabel]
+
 /-! ### the source semantics, unfolded -/
 
 theorem execBlockS_eq (fuel : Nat) (body : Stmts) (st : St) :
     execBlockS fuel body st =
       ((execStmtsS fuel body [] st).1,
-        (execStmtsS fuel body [] st).2.2.emits (execStmtsS fuel body [] st).2.1) := by
+        runRegs (execStmtsS fuel body [] st).2.1 (execStmtsS fuel body [] st).2.2) := by
   rw [execBlockS]
+
+@[simp] theorem runRegs_nil (st : St) : runRegs [] st = st := rfl
+
+@[simp] theorem runRegs_cons (r : Reg) (rs : List Reg) (st : St) :
+    runRegs (r :: rs) st = runRegs rs (r st) := rfl
+
+theorem runRegs_append (a b : List Reg) (st : St) :
+    runRegs (a ++ b) st = runRegs b (runRegs a st) := by
+  simp [runRegs, List.foldl_append]
 
 /-- a property of signals that holds of `normal` and of whatever a step leaves the loop with
 holds of the loop's signal -/
@@ -117,8 +148,126 @@ theorem iter_sig_ind {P : Sig → Prop} (step : St → Option Sig × St) (h0 : P
     | none => simpa using iter_sig_ind step h0 hs n st'
     | some sig => simpa using hs st sig st' h
 
+/-- what a signal that escapes a statement well-scoped under `ctx` can be: a `brk` aimed at a
+construct of the context, a `cont` aimed at a loop of the context -/
+def Esc (ctx : Ctx) : Sig → Prop
+  | .normal => True
+  | .brk l => (lookupLabel l ctx).isSome = true
+  | .cont l => lookupLabel l ctx = some true
+
 mutual
-/-- a `cont l` that escapes a well-scoped statement is not aimed at a plain block of the
+theorem esc_stmt (fuel : Nat) : (s : Stmt) → ∀ ctx regs st, wellScopedStmt s ctx = true →
+    Esc ctx (execS fuel s regs st).1
+  | .print c => by intro ctx regs st _; simp [execS, Esc]
+  | .defer b => by intro ctx regs st _; simp [execS, Esc]
+  | .brk l => by intro ctx regs st h; simpa [execS, Esc, wellScopedStmt] using h
+  | .cont l => by intro ctx regs st h; simpa [execS, Esc, wellScopedStmt] using h
+  | .tryS l => by
+    intro ctx regs st h
+    simp only [execS]
+    rcases hd : st.decide with ⟨b, st1⟩
+    cases b
+    · simp [Esc]
+    · simpa [Esc, wellScopedStmt] using h
+  | .block label body => by
+    intro ctx regs st h
+    simp only [wellScopedStmt] at h
+    have ih := esc_stmts fuel body (pushLabel label ctx) [] st h
+    simp only [execS, execBlockS_eq]
+    rcases hb : execStmtsS fuel body [] st with ⟨sigB, regsB, stB⟩
+    rw [hb] at ih
+    cases sigB with
+    | normal => simp [Esc]
+    | brk l =>
+      simp only
+      by_cases hl : label = some l
+      · simp [hl, Esc]
+      · simp only [hl, if_false]
+        simp only [Esc] at ih ⊢
+        rwa [lookupLabel_push_ne l label ctx hl] at ih
+    | cont l =>
+      simp only [Esc] at ih ⊢
+      by_cases hl : label = some l
+      · subst hl; rw [lookupLabel_push_eq] at ih; simp at ih
+      · rwa [lookupLabel_push_ne l label ctx hl] at ih
+  | .ifS body => by
+    intro ctx regs st h
+    simp only [wellScopedStmt] at h
+    simp only [execS, execBlockS_eq]
+    rcases hd : st.decide with ⟨b, st1⟩
+    cases b with
+    | false => simp [Esc]
+    | true => exact esc_stmts fuel body ctx [] st1 h
+  | .loop label body => by
+    intro ctx regs st h
+    simp only [wellScopedStmt] at h
+    simp only [execS]
+    apply iter_sig_ind (P := Esc ctx)
+    · simp [Esc]
+    · intro st0 sig st0' hstep
+      rcases hd : st0.decide with ⟨b, st1⟩
+      rw [hd] at hstep
+      cases b with
+      | false =>
+        simp only [Prod.mk.injEq, Option.some.injEq] at hstep
+        rw [← hstep.1]; simp [Esc]
+      | true =>
+        simp only [execBlockS_eq] at hstep
+        have ih := esc_stmts fuel body ((label, true) :: ctx) [] st1 h
+        rcases hb : execStmtsS fuel body [] st1 with ⟨sigB, regsB, stB⟩
+        rw [hb] at hstep ih
+        cases sigB with
+        | normal => simp at hstep
+        | brk l2 =>
+          simp only at hstep
+          split at hstep
+          · simp only [Prod.mk.injEq, Option.some.injEq] at hstep
+            rw [← hstep.1]; simp [Esc]
+          · rename_i hne
+            simp only [Prod.mk.injEq, Option.some.injEq] at hstep
+            rw [← hstep.1]
+            simp only [Esc, lookupLabel] at ih ⊢
+            rwa [if_neg (fun e => hne e.symm)] at ih
+        | cont l2 =>
+          simp only at hstep
+          split at hstep
+          · simp at hstep
+          · rename_i hne
+            simp only [Prod.mk.injEq, Option.some.injEq] at hstep
+            rw [← hstep.1]
+            simp only [Esc, lookupLabel] at ih ⊢
+            rwa [if_neg (fun e => hne e.symm)] at ih
+theorem esc_stmts (fuel : Nat) : (ss : Stmts) → ∀ ctx regs st, wellScoped ss ctx = true →
+    Esc ctx (execStmtsS fuel ss regs st).1
+  | .nil => by intro ctx regs st _; simp [execStmtsS, Esc]
+  | .cons s rest => by
+    intro ctx regs st hw
+    simp only [wellScoped, Bool.and_eq_true] at hw
+    simp only [execStmtsS]
+    have ih1 := esc_stmt fuel s ctx regs st hw.1
+    rcases hs : execS fuel s regs st with ⟨sig1, regs1, st1⟩
+    rw [hs] at ih1
+    cases sig1 with
+    | normal => exact esc_stmts fuel rest ctx regs1 st1 hw.2
+    | brk l2 => exact ih1
+    | cont l2 => exact ih1
+end
+
+/-- no signal escapes a closed body -/
+theorem closed_normal (fuel : Nat) (b : Stmts) (hb : Closed b) (regs : List Reg) (st : St) :
+    (execStmtsS fuel b regs st).1 = .normal := by
+  have h := esc_stmts fuel b [] regs st hb
+  rcases hs : (execStmtsS fuel b regs st).1 with _ | l | l
+  · rfl
+  · rw [hs] at h; simp [Esc, lookupLabel] at h
+  · rw [hs] at h; simp [Esc, lookupLabel] at h
+
+theorem closed_block_normal (fuel : Nat) (b : Stmts) (hb : Closed b) (st : St) :
+    (execBlockS fuel b st).1 = .normal := by
+  rw [execBlockS_eq]; exact closed_normal fuel b hb [] st
+
+mutual
+/-- a `cont l` that escapes a `contScoped` statement is not aimed at a plain block of the
 context -/
 theorem cont_escape_stmt (fuel : Nat) : (s : Stmt) → ∀ ctx regs st l, contScopedStmt s ctx = true →
     (execS fuel s regs st).1 = .cont l → lookupLabel l ctx ≠ some false
@@ -217,41 +366,6 @@ theorem cont_escape_stmts (fuel : Nat) : (ss : Stmts) → ∀ ctx regs st l, con
     | cont l2 => exact ih1 h
 end
 
-/-! ### compilation never panics below a frame -/
-
-mutual
-/-- under a non-empty defer stack compilation succeeds and only the top frame's defers change -/
-theorem compileStmt_some : (s : Stmt) → ∀ id ds rest,
-    ∃ ts ds' stop, compileStmt s ((id, ds) :: rest) = some (ts, (id, ds') :: rest, stop)
-  | .print c => by intro id ds rest; exact ⟨_, ds, _, rfl⟩
-  | .defer c => by intro id ds rest; exact ⟨_, c :: ds, _, rfl⟩
-  | .brk l => by intro id ds rest; exact ⟨_, ds, _, rfl⟩
-  | .cont l => by intro id ds rest; exact ⟨_, ds, _, rfl⟩
-  | .tryS l => by intro id ds rest; exact ⟨_, ds, _, rfl⟩
-  | .block label body => by
-    intro id ds rest
-    obtain ⟨tb, ds', h⟩ := compileStmts_some body label [] ((id, ds) :: rest)
-    rw [compileStmt, h]; exact ⟨_, ds, _, rfl⟩
-  | .loop label body => by
-    intro id ds rest
-    obtain ⟨tb, ds', h⟩ := compileStmts_some body none [] ((some label, []) :: (id, ds) :: rest)
-    rw [compileStmt, h]; exact ⟨_, ds, _, rfl⟩
-  | .ifS body => by
-    intro id ds rest
-    obtain ⟨tb, ds', h⟩ := compileStmts_some body none [] ((id, ds) :: rest)
-    rw [compileStmt, h]; exact ⟨_, ds, _, rfl⟩
-theorem compileStmts_some : (ss : Stmts) → ∀ id ds rest,
-    ∃ ts ds', compileStmts ss ((id, ds) :: rest) = some (ts, (id, ds') :: rest)
-  | .nil => by intro id ds rest; exact ⟨_, ds, rfl⟩
-  | .cons s r => by
-    intro id ds rest
-    obtain ⟨ts, ds1, stop, h1⟩ := compileStmt_some s id ds rest
-    obtain ⟨tr, ds2, h2⟩ := compileStmts_some r id ds1 rest
-    cases stop with
-    | true => refine ⟨ts, ds1, ?_⟩; simp [compileStmts, h1]
-    | false => refine ⟨Ts.append ts tr, ds2, ?_⟩; simp [compileStmts, h1, h2]
-end
-
 /-! ### the target semantics, unfolded -/
 
 theorem execTs_append (fuel : Nat) : (a b : Ts) → ∀ st,
@@ -275,30 +389,152 @@ theorem execTs_single (fuel : Nat) (t : T) (st : St) :
   rcases h : execT fuel t st with ⟨sig, st1⟩
   cases sig <;> simp
 
+/-- body code, then — only when the body ran to its end — the exit code -/
+def blockT (fuel : Nat) (tb ex : Ts) (st : St) : Sig × St :=
+  match execTs fuel tb st with
+  | (.normal, st') => execTs fuel ex st'
+  | r => r
+
+theorem execT_block (fuel : Nat) (label : Option Nat) (tb ex : Ts) (st : St) :
+    execT fuel (.block label tb ex) st = catchBrk label (blockT fuel tb ex st) := by
+  rw [execT, blockT]
+  rcases execTs fuel tb st with ⟨sig, st'⟩
+  cases sig <;> rfl
+
+theorem execT_ifT (fuel : Nat) (tb ex : Ts) (st : St) :
+    execT fuel (.ifT tb ex) st =
+      match st.decide with
+      | (false, st1) => (.normal, st1)
+      | (true, st1) => blockT fuel tb ex st1 := by
+  rw [execT]
+  rcases st.decide with ⟨b, st1⟩
+  cases b
+  · rfl
+  · simp only [blockT]
+    rcases execTs fuel tb st1 with ⟨sig, st'⟩
+    cases sig <;> rfl
+
+@[simp] theorem catchBrk_normal (label : Option Nat) (st : St) :
+    catchBrk label (.normal, st) = (.normal, st) := rfl
+@[simp] theorem catchBrk_cont (label : Option Nat) (l : Nat) (st : St) :
+    catchBrk label (.cont l, st) = (.cont l, st) := rfl
+@[simp] theorem catchBrk_brk (label : Option Nat) (l : Nat) (st : St) :
+    catchBrk label (.brk l, st) = if label = some l then (.normal, st) else (.brk l, st) := rfl
+
+/-! ### what the compiled deferred bodies do -/
+
+/-- every deferred body registered on the stack is closed -/
+def FramesClosed (fr : List Frame) : Prop := ∀ f ∈ fr, ∀ b ∈ f.2, Closed b
+
+theorem FramesClosed.tail {f : Frame} {fr : List Frame} (h : FramesClosed (f :: fr)) : FramesClosed fr :=
+  fun g hg => h g (List.mem_cons_of_mem _ hg)
+
+theorem FramesClosed.head {id : Option Nat} {ds : List Stmts} {fr : List Frame}
+    (h : FramesClosed ((id, ds) :: fr)) : ∀ b ∈ ds, Closed b :=
+  fun b hb => h (id, ds) (List.mem_cons_self ..) b hb
+
+theorem FramesClosed.cons {id : Option Nat} {ds : List Stmts} {fr : List Frame}
+    (hd : ∀ b ∈ ds, Closed b) (h : FramesClosed fr) : FramesClosed ((id, ds) :: fr) := by
+  intro f hf b hb
+  rcases List.mem_cons.1 hf with rfl | hf
+  · exact hd b hb
+  · exact h f hf b hb
+
+/-- `emit` compiles a closed deferred body, under any stack of closed bodies, to code that does
+what running the body as a block activation does (`runner`) and completes normally -/
+def EmitOK (fuel : Nat) (emit : Emit) : Prop :=
+  ∀ b fr tb, Closed b → FramesClosed fr → emit b fr = some tb →
+    ∀ st, execTs fuel tb st = (.normal, runner fuel b st)
+
+/-- the run-time view of a frame: its registered actions -/
+abbrev RFrame := Option Nat × List Reg
+
+def toR (fuel : Nat) (f : Frame) : RFrame := (f.1, f.2.map (runner fuel))
+
+/-- what the structural semantics does while a jump to `l` travels outwards through the
+activations `rfr` (innermost first): each activation that is left runs its registrations,
+down to and including the one labelled `l` -/
+def unwindS (l : Nat) : List RFrame → St → St
+  | [], st => st
+  | (id, rs) :: rest, st => if id = some l then runRegs rs st else unwindS l rest (runRegs rs st)
+
+theorem emitDefers_ok (fuel : Nat) (emit : Emit) (hE : EmitOK fuel emit) (fr : List Frame)
+    (hF : FramesClosed fr) : ∀ (ds : List Stmts) (t : Ts) (st : St), (∀ b ∈ ds, Closed b) →
+    emitDefers emit ds fr = some t →
+    execTs fuel t st = (.normal, runRegs (ds.map (runner fuel)) st)
+  | [], t, st => by
+    intro _ h
+    simp only [emitDefers, Option.some.injEq] at h
+    subst h
+    simp [execTs]
+  | b :: ds, t, st => by
+    intro hc h
+    simp only [emitDefers] at h
+    rcases hb : emit b fr with _ | tb
+    · rw [hb] at h; simp at h
+    rw [hb] at h
+    rcases hr : emitDefers emit ds fr with _ | r
+    · rw [hr] at h; simp at h
+    rw [hr] at h
+    simp only [Option.some.injEq] at h
+    subst h
+    rw [execTs_append, hE b fr tb (hc b (List.mem_cons_self ..)) hF hb st]
+    simp only [List.map_cons, runRegs_cons]
+    exact emitDefers_ok fuel emit hE fr hF ds r _ (fun b' hb' => hc b' (List.mem_cons_of_mem _ hb')) hr
+
+theorem defersUpTo_ok (fuel : Nat) (emit : Emit) (hE : EmitOK fuel emit) (l : Nat) :
+    ∀ (fr : List Frame) (t : Ts) (st : St), FramesClosed fr → defersUpTo emit l fr = some t →
+    execTs fuel t st = (.normal, unwindS l (fr.map (toR fuel)) st)
+  | [], t, st => by
+    intro _ h
+    simp only [defersUpTo, Option.some.injEq] at h
+    subst h
+    simp [execTs, unwindS]
+  | (id, ds) :: rest, t, st => by
+    intro hF h
+    simp only [defersUpTo] at h
+    rcases hd : emitDefers emit ds ((id, ds) :: rest) with _ | td
+    · rw [hd] at h; simp at h
+    rw [hd] at h
+    simp only at h
+    have e1 := emitDefers_ok fuel emit hE _ hF ds td st hF.head hd
+    simp only [List.map_cons, toR, unwindS]
+    by_cases hid : id = some l
+    · simp only [hid, if_true, Option.some.injEq] at h ⊢
+      subst h; exact e1
+    · simp only [hid, if_false] at h ⊢
+      rcases hr : defersUpTo emit l rest with _ | r
+      · rw [hr] at h; simp at h
+      rw [hr] at h
+      simp only [Option.some.injEq] at h
+      subst h
+      rw [execTs_append, e1]
+      exact defersUpTo_ok fuel emit hE l rest r _ hF.tail hr
+
 /-! ### the debt invariant -/
 
 /-- Source and target were started in the same state and the source produced signal `sig` in
 state `s`. `normal`: the target is in the same state. A jump to `l`: the target has already
-run, at the jump, the defers of every frame of `fr` down to `l`'s — those the source will run
-while the signal travels outwards. -/
-def Debt (fr : List Frame) : Sig → St → St → Prop
+run, at the jump, the deferred bodies of every activation of `rfr` down to `l`'s — those the
+source will run while the signal travels outwards. -/
+def Debt (rfr : List RFrame) : Sig → St → St → Prop
   | .normal, s, t => t = s
-  | .brk l, s, t => t = s.emits (defersUpTo l fr)
-  | .cont l, s, t => t = s.emits (defersUpTo l fr)
+  | .brk l, s, t => t = unwindS l rfr s
+  | .cont l, s, t => t = unwindS l rfr s
 
 /-- the result of a source statement (list) run with registrations growing to `rS.2.1` in the
-top frame `id`, against the result of its code -/
-def SimRes (id : Option Nat) (rest : List Frame) (rS : Sig × List Nat × St) (rT : Sig × St) : Prop :=
-  rT.1 = rS.1 ∧ Debt ((id, rS.2.1) :: rest) rS.1 rS.2.2 rT.2
+top activation `id`, against the result of its code -/
+def SimRes (id : Option Nat) (restR : List RFrame) (rS : Sig × List Reg × St) (rT : Sig × St) : Prop :=
+  rT.1 = rS.1 ∧ Debt ((id, rS.2.1) :: restR) rS.1 rS.2.2 rT.2
 
-def StepDebt (fr : List Frame) : Option Sig → St → St → Prop
+def StepDebt (rfr : List RFrame) : Option Sig → St → St → Prop
   | none, s, t => t = s
-  | some sig, s, t => Debt fr sig s t
+  | some sig, s, t => Debt rfr sig s t
 
-theorem iter_sim (fr : List Frame) (stepS stepT : St → Option Sig × St)
-    (h : ∀ st, (stepT st).1 = (stepS st).1 ∧ StepDebt fr (stepS st).1 (stepS st).2 (stepT st).2) :
+theorem iter_sim (rfr : List RFrame) (stepS stepT : St → Option Sig × St)
+    (h : ∀ st, (stepT st).1 = (stepS st).1 ∧ StepDebt rfr (stepS st).1 (stepS st).2 (stepT st).2) :
     ∀ n st, (iter stepT n st).1 = (iter stepS n st).1 ∧
-      Debt fr (iter stepS n st).1 (iter stepS n st).2 (iter stepT n st).2
+      Debt rfr (iter stepS n st).1 (iter stepS n st).2 (iter stepT n st).2
   | 0, st => by simp [iter, Debt]
   | n + 1, st => by
     have hst := h st
@@ -313,49 +549,122 @@ theorem iter_sim (fr : List Frame) (stepS stepT : St → Option Sig × St)
     | none =>
       simp only [StepDebt] at h2
       subst h2
-      exact iter_sim fr stepS stepT h n sT
+      exact iter_sim rfr stepS stepT h n sT
     | some sig => exact ⟨rfl, h2⟩
 
-theorem defersUpTo_cons (l : Nat) (id : Option Nat) (ds : List Nat) (rest : List Frame) :
-    defersUpTo l ((id, ds) :: rest) = if id = some l then ds else ds ++ defersUpTo l rest := rfl
+theorem closeBlock_fst {emit : Emit} {tb0 : Ts} {frb : List Frame} {stopb : Bool} {tb ex : Ts}
+    (h : closeBlock emit (some (tb0, frb, stopb)) = some (tb, ex)) : tb0 = tb := by
+  cases frb with
+  | nil => simp [closeBlock] at h
+  | cons f below =>
+    obtain ⟨id, ds⟩ := f
+    simp only [closeBlock] at h
+    split at h
+    · simp only [Option.some.injEq, Prod.mk.injEq] at h; exact h.1
+    · split at h
+      · simp at h
+      · simp only [Option.some.injEq, Prod.mk.injEq] at h; exact h.1
+
+/-- One block activation against its code, given the simulation of the body's statement list
+(`ih`): same signal; after a jump the code has additionally run what the activations below
+will run. Used for blocks, `if` bodies, loop bodies, deferred bodies and the function body. -/
+theorem body_sim (fuel : Nat) (emit : Emit) (hE : EmitOK fuel emit) (body : Stmts)
+    (label : Option Nat) (below : List Frame) (tb ex : Ts) (st : St) (hF : FramesClosed below)
+    (hcl : closeBlock emit (compileStmts emit body ((label, []) :: below)) = some (tb, ex))
+    (ih : ∀ tb frb stopb, compileStmts emit body ((label, []) :: below) = some (tb, frb, stopb) →
+      SimRes label (below.map (toR fuel)) (execStmtsS fuel body [] st) (execTs fuel tb st) ∧
+      ((execStmtsS fuel body [] st).1 = .normal → ∃ ds', frb = (label, ds') :: below ∧
+        (execStmtsS fuel body [] st).2.1 = ds'.map (runner fuel) ∧ (∀ b ∈ ds', Closed b) ∧
+        stopb = false)) :
+    (blockT fuel tb ex st).1 = (execBlockS fuel body st).1 ∧
+      Debt ((label, []) :: below.map (toR fuel)) (execBlockS fuel body st).1
+        (execBlockS fuel body st).2 (blockT fuel tb ex st).2 := by
+  rcases hcb : compileStmts emit body ((label, []) :: below) with _ | ⟨tb0, frb, stopb⟩
+  · rw [hcb] at hcl; simp [closeBlock] at hcl
+  rw [hcb] at hcl
+  obtain ⟨⟨h1, h2⟩, h3⟩ := ih tb0 frb stopb hcb
+  have htb : tb0 = tb := closeBlock_fst hcl
+  subst htb
+  simp only [blockT, execBlockS_eq]
+  rcases hb : execStmtsS fuel body [] st with ⟨sigB, regsB, stB⟩
+  rcases hT : execTs fuel tb0 st with ⟨sigT, stT⟩
+  rw [hb, hT] at h1 h2
+  rw [hb] at h3
+  simp only at h1 h2 h3
+  subst h1
+  cases sigT with
+  | normal =>
+    obtain ⟨ds', rfl, hregs, hcl', rfl⟩ := h3 rfl
+    simp only [Debt] at h2
+    subst h2
+    simp only [closeBlock, Bool.false_eq_true, if_false] at hcl
+    rcases he : emitDefers emit ds' below with _ | ex0
+    · rw [he] at hcl; simp at hcl
+    rw [he] at hcl
+    simp only [Option.some.injEq, Prod.mk.injEq, true_and] at hcl
+    subst hcl
+    simp only
+    rw [emitDefers_ok fuel emit hE below hF ds' ex0 stT hcl' he, hregs]
+    simp [Debt]
+  | brk l =>
+    simp only [Debt, unwindS] at h2 ⊢
+    simp [h2]
+  | cont l =>
+    simp only [Debt, unwindS] at h2 ⊢
+    simp [h2]
+
+/-! ### loops -/
 
 /-- one loop iteration of the source semantics (condition, body block) -/
 def loopStepS (fuel label : Nat) (body : Stmts) : St → Option Sig × St := fun st =>
   match st.decide with
   | (false, st1) => (some .normal, st1)
-  | (true, st1) =>
-    match execBlockS fuel body st1 with
-    | (.normal, st') => (none, st')
-    | (.brk l, st') => if l = label then (some .normal, st') else (some (.brk l), st')
-    | (.cont l, st') => if l = label then (none, st') else (some (.cont l), st')
+  | (true, st1) => loopNext label (execBlockS fuel body st1)
 
 /-- one loop iteration of the generated code -/
-def loopStepT (fuel label : Nat) (body : Ts) (exitCode : List Nat) : St → Option Sig × St := fun st =>
+def loopStepT (fuel label : Nat) (tb ex : Ts) : St → Option Sig × St := fun st =>
   match st.decide with
   | (false, st1) => (some .normal, st1)
-  | (true, st1) =>
-    match execTs fuel body st1 with
-    | (.normal, st') => (none, st'.emits exitCode)
-    | (.brk l, st') => if l = label then (some .normal, st') else (some (.brk l), st')
-    | (.cont l, st') => if l = label then (none, st') else (some (.cont l), st')
+  | (true, st1) => loopNext label (blockT fuel tb ex st1)
 
-theorem execS_loop (fuel label : Nat) (body : Stmts) (regs : List Nat) (st : St) :
+theorem iter_congr {f g : St → Option Sig × St} (h : ∀ st, f st = g st) (n : Nat) (st : St) :
+    iter f n st = iter g n st := by
+  have : f = g := funext h
+  rw [this]
+
+theorem execS_loop (fuel label : Nat) (body : Stmts) (regs : List Reg) (st : St) :
     execS fuel (.loop label body) regs st =
       ((iter (loopStepS fuel label body) fuel st).1, regs, (iter (loopStepS fuel label body) fuel st).2) := by
-  rw [execS]; rfl
+  rw [execS, iter_congr (g := loopStepS fuel label body)]
+  intro st0
+  simp only [loopStepS]
+  rcases st0.decide with ⟨b, st1⟩
+  cases b
+  · rfl
+  · simp only
+    rcases execBlockS fuel body st1 with ⟨sig, st'⟩
+    cases sig <;> rfl
 
-theorem execT_loop (fuel label : Nat) (body : Ts) (exitCode : List Nat) (st : St) :
-    execT fuel (.loop label body exitCode) st = iter (loopStepT fuel label body exitCode) fuel st := by
-  rw [execT]; rfl
+theorem execT_loop (fuel label : Nat) (tb ex : Ts) (st : St) :
+    execT fuel (.loop label tb ex) st = iter (loopStepT fuel label tb ex) fuel st := by
+  rw [execT, iter_congr (g := loopStepT fuel label tb ex)]
+  intro st0
+  simp only [loopStepT, blockT]
+  rcases st0.decide with ⟨b, st1⟩
+  cases b
+  · rfl
+  · simp only
+    rcases execTs fuel tb st1 with ⟨sig, st'⟩
+    cases sig <;> rfl
 
-/-- the step relation of a loop, from the simulation of its body -/
-theorem loop_step_sim (fuel label : Nat) (body : Stmts) (tb : Ts) (frb fr : List Frame)
-    (hbody : ∀ st, SimRes none ((some label, []) :: fr) (execStmtsS fuel body [] st) (execTs fuel tb st) ∧
-      ((execStmtsS fuel body [] st).1 = .normal →
-        frb = (none, (execStmtsS fuel body [] st).2.1) :: (some label, []) :: fr)) :
-    ∀ st, (loopStepT fuel label tb (topDefers frb) st).1 = (loopStepS fuel label body st).1 ∧
-      StepDebt fr (loopStepS fuel label body st).1 (loopStepS fuel label body st).2
-        (loopStepT fuel label tb (topDefers frb) st).2 := by
+/-- the step relation of a loop, from the simulation of its body block -/
+theorem loop_step_sim (fuel label : Nat) (body : Stmts) (tb ex : Ts) (rfr : List RFrame)
+    (hbody : ∀ st, (blockT fuel tb ex st).1 = (execBlockS fuel body st).1 ∧
+      Debt ((none, []) :: (some label, []) :: rfr) (execBlockS fuel body st).1
+        (execBlockS fuel body st).2 (blockT fuel tb ex st).2) :
+    ∀ st, (loopStepT fuel label tb ex st).1 = (loopStepS fuel label body st).1 ∧
+      StepDebt rfr (loopStepS fuel label body st).1 (loopStepS fuel label body st).2
+        (loopStepT fuel label tb ex st).2 := by
   intro st
   simp only [loopStepS, loopStepT]
   rcases hd : st.decide with ⟨b, st1⟩
@@ -363,191 +672,250 @@ theorem loop_step_sim (fuel label : Nat) (body : Stmts) (tb : Ts) (frb fr : List
   | false => simp [StepDebt, Debt]
   | true =>
     have ih := hbody st1
-    simp only [execBlockS_eq]
-    rcases hb : execStmtsS fuel body [] st1 with ⟨sigB, regsB, stB⟩
-    rcases hT : execTs fuel tb st1 with ⟨sigT, stT⟩
+    simp only
+    rcases hb : execBlockS fuel body st1 with ⟨sigB, stB⟩
+    rcases hT : blockT fuel tb ex st1 with ⟨sigT, stT⟩
     rw [hb, hT] at ih
-    obtain ⟨⟨h1, h2⟩, h3⟩ := ih
-    simp only at h1 h2 h3
+    obtain ⟨h1, h2⟩ := ih
+    simp only at h1 h2
     subst h1
     cases sigT with
     | normal =>
-      obtain rfl := h3 rfl
       simp only [Debt] at h2; subst h2
-      simp [StepDebt, topDefers]
+      simp [StepDebt, loopNext]
     | brk l =>
-      simp only [Debt] at h2
-      rw [defersUpTo_cons, defersUpTo_cons] at h2
+      simp only [Debt, unwindS, runRegs_nil] at h2
       by_cases hl : l = label
-      · subst hl; simp at h2; subst h2; simp [StepDebt, Debt]
+      · subst hl; simp at h2; subst h2; simp [StepDebt, Debt, loopNext]
       · have hl' : ¬ label = l := fun e => hl e.symm
-        simp [hl'] at h2; subst h2; simp [StepDebt, Debt, hl, St.emits_append]
+        simp [hl'] at h2; subst h2; simp [StepDebt, Debt, loopNext, hl]
     | cont l =>
-      simp only [Debt] at h2
-      rw [defersUpTo_cons, defersUpTo_cons] at h2
+      simp only [Debt, unwindS, runRegs_nil] at h2
       by_cases hl : l = label
-      · subst hl; simp at h2; subst h2; simp [StepDebt]
+      · subst hl; simp at h2; subst h2; simp [StepDebt, loopNext]
       · have hl' : ¬ label = l := fun e => hl e.symm
-        simp [hl'] at h2; subst h2; simp [StepDebt, Debt, hl, St.emits_append]
+        simp [hl'] at h2; subst h2; simp [StepDebt, Debt, loopNext, hl]
 
 /-! ### the simulation -/
 
+theorem map_toR_cons (fuel : Nat) (id : Option Nat) (ds : List Stmts) (rest : List Frame) :
+    ((id, ds) :: rest).map (toR fuel) = (id, ds.map (runner fuel)) :: rest.map (toR fuel) := rfl
+
+theorem toR_mk (fuel : Nat) (id : Option Nat) (ds : List Stmts) :
+    toR fuel (id, ds) = (id, ds.map (runner fuel)) := rfl
+
 mutual
-theorem sim_stmt (fuel : Nat) : (s : Stmt) → ∀ ctx id ds rest ts fr' stop st,
-    contScopedStmt s ctx = true → compileStmt s ((id, ds) :: rest) = some (ts, fr', stop) →
-    SimRes id rest (execS fuel s ds st) (execTs fuel ts st) ∧
-      ((execS fuel s ds st).1 = .normal →
-        fr' = (id, (execS fuel s ds st).2.1) :: rest ∧ stop = false)
+theorem sim_stmt (fuel : Nat) (emit : Emit) (hE : EmitOK fuel emit) : (s : Stmt) →
+    ∀ ctx id ds rest ts fr' stop st,
+    contScopedStmt s ctx = true → FramesClosed ((id, ds) :: rest) →
+    compileStmt emit s ((id, ds) :: rest) = some (ts, fr', stop) →
+    SimRes id (rest.map (toR fuel)) (execS fuel s (ds.map (runner fuel)) st) (execTs fuel ts st) ∧
+      ((execS fuel s (ds.map (runner fuel)) st).1 = .normal →
+        ∃ ds', fr' = (id, ds') :: rest ∧
+          (execS fuel s (ds.map (runner fuel)) st).2.1 = ds'.map (runner fuel) ∧
+          (∀ b ∈ ds', Closed b) ∧ stop = false)
   | .print c => by
-    intro ctx id ds rest ts fr' stop st _ hc
+    intro ctx id ds rest ts fr' stop st _ hF hc
     simp only [compileStmt, Option.some.injEq, Prod.mk.injEq] at hc
     obtain ⟨rfl, rfl, rfl⟩ := hc
-    simp [SimRes, Debt, execS, execTs_single, execT]
-  | .defer c => by
-    intro ctx id ds rest ts fr' stop st _ hc
+    refine ⟨by simp [SimRes, Debt, execS, execTs_single, execT], fun _ => ⟨ds, rfl, ?_, hF.head, by trivial⟩⟩
+    simp [execS]
+  | .defer b => by
+    intro ctx id ds rest ts fr' stop st hw hF hc
     simp only [compileStmt, registerDefer, Option.map_some, Option.some.injEq, Prod.mk.injEq] at hc
     obtain ⟨rfl, rfl, rfl⟩ := hc
-    simp [SimRes, Debt, execS, execTs]
+    simp only [contScopedStmt] at hw
+    refine ⟨by simp [SimRes, Debt, execS, execTs], fun _ => ⟨b :: ds, rfl, ?_, ?_, rfl⟩⟩
+    · simp only [execS, List.map_cons]; rfl
+    · intro b' hb'
+      rcases List.mem_cons.1 hb' with rfl | hb'
+      · exact hw
+      · exact hF.head b' hb'
   | .brk l => by
-    intro ctx id ds rest ts fr' stop st _ hc
-    simp only [compileStmt, Option.some.injEq, Prod.mk.injEq] at hc
+    intro ctx id ds rest ts fr' stop st _ hF hc
+    simp only [compileStmt] at hc
+    rcases hd : defersUpTo emit l ((id, ds) :: rest) with _ | code
+    · rw [hd] at hc; simp at hc
+    rw [hd] at hc
+    simp only [Option.map_some, Option.some.injEq, Prod.mk.injEq] at hc
     obtain ⟨rfl, rfl, rfl⟩ := hc
-    simp [SimRes, Debt, execS, execTs_single, execT]
+    have e := defersUpTo_ok fuel emit hE l _ code st hF hd
+    refine ⟨?_, fun h => by simp [execS] at h⟩
+    simp [SimRes, Debt, execS, execTs_single, execT, e, toR_mk]
   | .cont l => by
-    intro ctx id ds rest ts fr' stop st _ hc
-    simp only [compileStmt, Option.some.injEq, Prod.mk.injEq] at hc
+    intro ctx id ds rest ts fr' stop st _ hF hc
+    simp only [compileStmt] at hc
+    rcases hd : defersUpTo emit l ((id, ds) :: rest) with _ | code
+    · rw [hd] at hc; simp at hc
+    rw [hd] at hc
+    simp only [Option.map_some, Option.some.injEq, Prod.mk.injEq] at hc
     obtain ⟨rfl, rfl, rfl⟩ := hc
-    simp [SimRes, Debt, execS, execTs_single, execT]
+    have e := defersUpTo_ok fuel emit hE l _ code st hF hd
+    refine ⟨?_, fun h => by simp [execS] at h⟩
+    simp [SimRes, Debt, execS, execTs_single, execT, e, toR_mk]
   | .tryS l => by
-    intro ctx id ds rest ts fr' stop st _ hc
-    simp only [compileStmt, Option.some.injEq, Prod.mk.injEq] at hc
+    intro ctx id ds rest ts fr' stop st _ hF hc
+    simp only [compileStmt] at hc
+    rcases hd : defersUpTo emit l ((id, ds) :: rest) with _ | code
+    · rw [hd] at hc; simp at hc
+    rw [hd] at hc
+    simp only [Option.map_some, Option.some.injEq, Prod.mk.injEq] at hc
     obtain ⟨rfl, rfl, rfl⟩ := hc
     simp only [execS, execTs_single, execT]
-    rcases hd : st.decide with ⟨b, st1⟩
-    cases b <;> simp [SimRes, Debt]
+    rcases hdec : st.decide with ⟨b, st1⟩
+    cases b with
+    | false => exact ⟨by simp [SimRes, Debt], fun _ => ⟨ds, rfl, rfl, hF.head, by trivial⟩⟩
+    | true =>
+      have e := defersUpTo_ok fuel emit hE l _ code st1 hF hd
+      refine ⟨?_, fun h => by simp at h⟩
+      simp [SimRes, Debt, e, toR_mk]
   | .block label body => by
-    intro ctx id ds rest ts fr' stop st hw hc
+    intro ctx id ds rest ts fr' stop st hw hF hc
     simp only [contScopedStmt] at hw
     simp only [compileStmt] at hc
-    rcases hcb : compileStmts body ((label, []) :: (id, ds) :: rest) with _ | ⟨tb, frb⟩
-    · rw [hcb] at hc; simp at hc
-    rw [hcb] at hc
+    rcases hcl : closeBlock emit (compileStmts emit body ((label, []) :: (id, ds) :: rest)) with _ | ⟨tb, ex⟩
+    · rw [hcl] at hc; simp at hc
+    rw [hcl] at hc
     simp only [Option.some.injEq, Prod.mk.injEq] at hc
     obtain ⟨rfl, rfl, rfl⟩ := hc
-    have ih := sim_stmts fuel body (pushLabel label ctx) label [] ((id, ds) :: rest) tb frb st hw hcb
+    have hFb : FramesClosed ((label, []) :: (id, ds) :: rest) :=
+      FramesClosed.cons (fun _ h => by simp at h) hF
+    have key := body_sim fuel emit hE body label ((id, ds) :: rest) tb ex st hF hcl
+      (fun tb' frb stopb hcb =>
+        sim_stmts fuel emit hE body (pushLabel label ctx) label [] ((id, ds) :: rest) tb' frb stopb st hw hFb hcb)
     have hesc := cont_escape_stmts fuel body (pushLabel label ctx) [] st
-    simp only [execTs_single, execT, execS, execBlockS_eq]
-    rcases hb : execStmtsS fuel body [] st with ⟨sigB, regsB, stB⟩
-    rcases hT : execTs fuel tb st with ⟨sigT, stT⟩
-    rw [hb, hT] at ih
-    obtain ⟨⟨h1, h2⟩, h3⟩ := ih
-    simp only at h1 h2 h3
+    simp only [execTs_single, execT_block, execS]
+    rcases hb : execBlockS fuel body st with ⟨sigB, stB⟩
+    rcases hT : blockT fuel tb ex st with ⟨sigT, stT⟩
+    rw [hb, hT] at key
+    obtain ⟨h1, h2⟩ := key
+    simp only at h1 h2
     subst h1
     cases sigT with
     | normal =>
-      obtain rfl := h3 rfl
       simp only [Debt] at h2; subst h2
-      simp [SimRes, Debt, topDefers]
+      exact ⟨by simp [SimRes, Debt], fun _ => ⟨ds, rfl, rfl, hF.head, by trivial⟩⟩
     | brk l =>
-      simp only [Debt] at h2
-      rw [defersUpTo_cons] at h2
+      simp only [Debt, unwindS, runRegs_nil] at h2
       by_cases hl : label = some l
-      · subst hl; simp at h2; subst h2; simp [SimRes, Debt]
-      · simp [hl] at h2; subst h2; simp [SimRes, Debt, hl, St.emits_append]
+      · simp only [hl, if_true] at h2; subst h2
+        simp only [hl, catchBrk_brk, if_true]
+        exact ⟨by simp [SimRes, Debt], fun _ => ⟨ds, rfl, rfl, hF.head, by trivial⟩⟩
+      · simp only [hl, if_false] at h2; subst h2
+        simp only [hl, catchBrk_brk, if_false]
+        exact ⟨by simp [SimRes, Debt, toR_mk], fun h => by simp at h⟩
     | cont l =>
-      simp only [Debt] at h2
-      rw [defersUpTo_cons] at h2
+      simp only [Debt, unwindS, runRegs_nil] at h2
       have hl : ¬ label = some l := by
         intro e; subst e
-        have := hesc l hw (by rw [hb])
+        have hs : (execStmtsS fuel body [] st).1 = .cont l := by
+          have := congrArg Prod.fst hb
+          rw [execBlockS_eq] at this
+          exact this
+        have := hesc l hw hs
         simp [pushLabel, lookupLabel] at this
-      simp [hl] at h2; subst h2; simp [SimRes, Debt, St.emits_append]
+      simp only [hl, if_false] at h2; subst h2
+      exact ⟨by simp [SimRes, Debt, toR_mk], fun h => by simp at h⟩
   | .ifS body => by
-    intro ctx id ds rest ts fr' stop st hw hc
+    intro ctx id ds rest ts fr' stop st hw hF hc
     simp only [contScopedStmt] at hw
     simp only [compileStmt] at hc
-    rcases hcb : compileStmts body ((none, []) :: (id, ds) :: rest) with _ | ⟨tb, frb⟩
-    · rw [hcb] at hc; simp at hc
-    rw [hcb] at hc
+    rcases hcl : closeBlock emit (compileStmts emit body ((none, []) :: (id, ds) :: rest)) with _ | ⟨tb, ex⟩
+    · rw [hcl] at hc; simp at hc
+    rw [hcl] at hc
     simp only [Option.some.injEq, Prod.mk.injEq] at hc
     obtain ⟨rfl, rfl, rfl⟩ := hc
-    simp only [execTs_single, execT, execS, execBlockS_eq]
+    have hFb : FramesClosed ((none, []) :: (id, ds) :: rest) :=
+      FramesClosed.cons (fun _ h => by simp at h) hF
+    simp only [execTs_single, execT_ifT, execS]
     rcases hd : st.decide with ⟨b, st1⟩
     cases b with
-    | false => simp [SimRes, Debt]
+    | false => exact ⟨by simp [SimRes, Debt], fun _ => ⟨ds, rfl, rfl, hF.head, by trivial⟩⟩
     | true =>
-      have ih := sim_stmts fuel body ctx none [] ((id, ds) :: rest) tb frb st1 hw hcb
+      have key := body_sim fuel emit hE body none ((id, ds) :: rest) tb ex st1 hF hcl
+        (fun tb' frb stopb hcb =>
+          sim_stmts fuel emit hE body ctx none [] ((id, ds) :: rest) tb' frb stopb st1 hw hFb hcb)
       simp only
-      rcases hb : execStmtsS fuel body [] st1 with ⟨sigB, regsB, stB⟩
-      rcases hT : execTs fuel tb st1 with ⟨sigT, stT⟩
-      rw [hb, hT] at ih
-      obtain ⟨⟨h1, h2⟩, h3⟩ := ih
-      simp only at h1 h2 h3
+      rcases hb : execBlockS fuel body st1 with ⟨sigB, stB⟩
+      rcases hT : blockT fuel tb ex st1 with ⟨sigT, stT⟩
+      rw [hb, hT] at key
+      obtain ⟨h1, h2⟩ := key
+      simp only at h1 h2
       subst h1
       cases sigT with
       | normal =>
-        obtain rfl := h3 rfl
         simp only [Debt] at h2; subst h2
-        simp [SimRes, Debt, topDefers]
+        exact ⟨by simp [SimRes, Debt], fun _ => ⟨ds, rfl, rfl, hF.head, by trivial⟩⟩
       | brk l =>
-        simp only [Debt] at h2
-        rw [defersUpTo_cons] at h2
-        simp at h2; subst h2; simp [SimRes, Debt, St.emits_append]
+        simp only [Debt, unwindS, runRegs_nil] at h2
+        simp at h2; subst h2
+        exact ⟨by simp [SimRes, Debt, toR_mk], fun h => by simp at h⟩
       | cont l =>
-        simp only [Debt] at h2
-        rw [defersUpTo_cons] at h2
-        simp at h2; subst h2; simp [SimRes, Debt, St.emits_append]
+        simp only [Debt, unwindS, runRegs_nil] at h2
+        simp at h2; subst h2
+        exact ⟨by simp [SimRes, Debt, toR_mk], fun h => by simp at h⟩
   | .loop label body => by
-    intro ctx id ds rest ts fr' stop st hw hc
+    intro ctx id ds rest ts fr' stop st hw hF hc
     simp only [contScopedStmt] at hw
     simp only [compileStmt] at hc
-    rcases hcb : compileStmts body ((none, []) :: (some label, []) :: (id, ds) :: rest) with _ | ⟨tb, frb⟩
-    · rw [hcb] at hc; simp at hc
-    rw [hcb] at hc
+    rcases hcl : closeBlock emit (compileStmts emit body ((none, []) :: (some label, []) :: (id, ds) :: rest)) with _ | ⟨tb, ex⟩
+    · rw [hcl] at hc; simp at hc
+    rw [hcl] at hc
     simp only [Option.some.injEq, Prod.mk.injEq] at hc
     obtain ⟨rfl, rfl, rfl⟩ := hc
-    have hbody := fun st1 => sim_stmts fuel body ((label, true) :: ctx) none []
-      ((some label, []) :: (id, ds) :: rest) tb frb st1 hw hcb
-    have key := iter_sim ((id, ds) :: rest) _ _
-      (loop_step_sim fuel label body tb frb ((id, ds) :: rest) hbody) fuel st
+    have hFl : FramesClosed ((some label, []) :: (id, ds) :: rest) :=
+      FramesClosed.cons (fun _ h => by simp at h) hF
+    have hFb : FramesClosed ((none, []) :: (some label, []) :: (id, ds) :: rest) :=
+      FramesClosed.cons (fun _ h => by simp at h) hFl
+    have hbody := fun st1 => body_sim fuel emit hE body none ((some label, []) :: (id, ds) :: rest) tb ex st1 hFl hcl
+      (fun tb' frb stopb hcb =>
+        sim_stmts fuel emit hE body ((label, true) :: ctx) none [] ((some label, []) :: (id, ds) :: rest)
+          tb' frb stopb st1 hw hFb hcb)
+    have key := iter_sim (((id, ds) :: rest).map (toR fuel)) _ _
+      (loop_step_sim fuel label body tb ex _ hbody) fuel st
     rw [execTs_single, execT_loop, execS_loop]
-    exact ⟨key, fun _ => ⟨rfl, rfl⟩⟩
-theorem sim_stmts (fuel : Nat) : (ss : Stmts) → ∀ ctx id ds rest ts fr' st,
-    contScoped ss ctx = true → compileStmts ss ((id, ds) :: rest) = some (ts, fr') →
-    SimRes id rest (execStmtsS fuel ss ds st) (execTs fuel ts st) ∧
-      ((execStmtsS fuel ss ds st).1 = .normal → fr' = (id, (execStmtsS fuel ss ds st).2.1) :: rest)
+    exact ⟨key, fun _ => ⟨ds, rfl, rfl, hF.head, by trivial⟩⟩
+theorem sim_stmts (fuel : Nat) (emit : Emit) (hE : EmitOK fuel emit) : (ss : Stmts) →
+    ∀ ctx id ds rest ts fr' stop st,
+    contScoped ss ctx = true → FramesClosed ((id, ds) :: rest) →
+    compileStmts emit ss ((id, ds) :: rest) = some (ts, fr', stop) →
+    SimRes id (rest.map (toR fuel)) (execStmtsS fuel ss (ds.map (runner fuel)) st) (execTs fuel ts st) ∧
+      ((execStmtsS fuel ss (ds.map (runner fuel)) st).1 = .normal →
+        ∃ ds', fr' = (id, ds') :: rest ∧
+          (execStmtsS fuel ss (ds.map (runner fuel)) st).2.1 = ds'.map (runner fuel) ∧
+          (∀ b ∈ ds', Closed b) ∧ stop = false)
   | .nil => by
-    intro ctx id ds rest ts fr' st _ hc
+    intro ctx id ds rest ts fr' stop st _ hF hc
     simp only [compileStmts, Option.some.injEq, Prod.mk.injEq] at hc
-    obtain ⟨rfl, rfl⟩ := hc
-    simp [SimRes, Debt, execStmtsS, execTs]
+    obtain ⟨rfl, rfl, rfl⟩ := hc
+    exact ⟨by simp [SimRes, Debt, execStmtsS, execTs], fun _ => ⟨ds, rfl, by simp [execStmtsS], hF.head, by trivial⟩⟩
   | .cons s r => by
-    intro ctx id ds rest ts fr' st hw hc
+    intro ctx id ds rest ts fr' stop st hw hF hc
     simp only [contScoped, Bool.and_eq_true] at hw
     simp only [compileStmts] at hc
-    rcases hcs : compileStmt s ((id, ds) :: rest) with _ | ⟨ts1, fr1, stop⟩
+    rcases hcs : compileStmt emit s ((id, ds) :: rest) with _ | ⟨ts1, fr1, stop1⟩
     · rw [hcs] at hc; simp at hc
     rw [hcs] at hc
     simp only at hc
-    have ih1 := sim_stmt fuel s ctx id ds rest ts1 fr1 stop st hw.1 hcs
+    have ih1 := sim_stmt fuel emit hE s ctx id ds rest ts1 fr1 stop1 st hw.1 hF hcs
     simp only [execStmtsS]
-    rcases hs : execS fuel s ds st with ⟨sig1, regs1, st1⟩
+    rcases hs : execS fuel s (ds.map (runner fuel)) st with ⟨sig1, regs1, st1⟩
     rw [hs] at ih1
-    cases stop with
+    cases stop1 with
     | true =>
       simp only [if_true, Option.some.injEq, Prod.mk.injEq] at hc
-      obtain ⟨rfl, rfl⟩ := hc
+      obtain ⟨rfl, rfl, rfl⟩ := hc
       obtain ⟨hsim, h3⟩ := ih1
       cases sig1 with
-      | normal => have := (h3 rfl).2; simp at this
+      | normal => obtain ⟨_, _, _, _, h⟩ := h3 rfl; simp at h
       | brk l => exact ⟨hsim, fun h => by simp at h⟩
       | cont l => exact ⟨hsim, fun h => by simp at h⟩
     | false =>
-      rcases hcr : compileStmts r fr1 with _ | ⟨tr, fr2⟩
+      rcases hcr : compileStmts emit r fr1 with _ | ⟨tr, fr2, stop2⟩
       · rw [hcr] at hc; simp at hc
       rw [hcr] at hc
       simp only [Bool.false_eq_true, if_false, Option.some.injEq, Prod.mk.injEq] at hc
-      obtain ⟨rfl, rfl⟩ := hc
+      obtain ⟨rfl, rfl, rfl⟩ := hc
       rw [execTs_append]
       rcases hT : execTs fuel ts1 st with ⟨sigT, stT⟩
       rw [hT] at ih1
@@ -556,76 +924,386 @@ theorem sim_stmts (fuel : Nat) : (ss : Stmts) → ∀ ctx id ds rest ts fr' st,
       subst h1
       cases sigT with
       | normal =>
-        obtain ⟨rfl, _⟩ := h3 rfl
+        obtain ⟨ds1, rfl, rfl, hcl1, _⟩ := h3 rfl
         simp only [Debt] at h2; subst h2
-        exact sim_stmts fuel r ctx id regs1 rest tr fr2 _ hw.2 hcr
+        exact sim_stmts fuel emit hE r ctx id ds1 rest tr fr2 stop2 _ hw.2
+          (FramesClosed.cons hcl1 hF.tail) hcr
       | brk l => exact ⟨⟨rfl, h2⟩, fun h => by simp at h⟩
       | cont l => exact ⟨⟨rfl, h2⟩, fun h => by simp at h⟩
 end
 
+/-! ### the knot: compiled deferred bodies do what `runner` does -/
+
+theorem FramesClosed.nil : FramesClosed [] := fun _ h => by simp at h
+
+theorem FramesClosed.push {fr : List Frame} (id : Option Nat) (h : FramesClosed fr) :
+    FramesClosed ((id, []) :: fr) :=
+  FramesClosed.cons (fun _ h => by simp at h) h
+
+theorem compileDeferred_ok (fuel : Nat) : ∀ n, EmitOK fuel (compileDeferred n)
+  | 0 => by intro b fr tb _ _ h; simp [compileDeferred] at h
+  | n + 1 => by
+    intro b fr t hb hF h st
+    have hE := compileDeferred_ok fuel n
+    simp only [compileDeferred] at h
+    rcases hcl : closeBlock (compileDeferred n) (compileStmts (compileDeferred n) b ((none, []) :: fr))
+      with _ | ⟨tb, ex⟩
+    · rw [hcl] at h; simp at h
+    rw [hcl] at h
+    simp only [Option.some.injEq] at h
+    subst h
+    have key := body_sim fuel _ hE b none fr tb ex st hF hcl
+      (fun tb' frb stopb hcb => sim_stmts fuel _ hE b [] none [] fr tb' frb stopb st
+        (wellScoped_contScoped b [] hb) (hF.push none) hcb)
+    have hn := closed_block_normal fuel b hb st
+    rw [execTs_single, execT_block]
+    simp only [runner]
+    rcases hB : execBlockS fuel b st with ⟨sigB, stB⟩
+    rcases hT : blockT fuel tb ex st with ⟨sigT, stT⟩
+    rw [hB, hT] at key
+    rw [hB] at hn
+    simp only at hn key
+    subst hn
+    obtain ⟨h1, h2⟩ := key
+    subst h1
+    simp only [Debt] at h2
+    subst h2
+    simp
+
+/-! ### totality of compilation -/
+
+/-- `emit` compiles every closed body whose defers nest less than `k` deep -/
+def EmitTotal (emit : Emit) (k : Nat) : Prop :=
+  ∀ b fr, Closed b → deferDepth b < k → ∃ t, emit b fr = some t
+
+/-- every label of the context has a frame among `inner` -/
+def Covered (ctx : Ctx) (inner : List Frame) : Prop :=
+  ∀ l, (lookupLabel l ctx).isSome = true → ∃ f ∈ inner, f.1 = some l
+
+/-- the registered bodies are closed and their defers nest less than `k` deep -/
+def Small (k : Nat) (inner : List Frame) : Prop :=
+  ∀ f ∈ inner, ∀ b ∈ f.2, Closed b ∧ deferDepth b < k
+
+theorem Small.push {k : Nat} {inner : List Frame} (id : Option Nat) (h : Small k inner) :
+    Small k ((id, []) :: inner) := by
+  intro f hf b hb
+  rcases List.mem_cons.1 hf with rfl | hf
+  · simp at hb
+  · exact h f hf b hb
+
+theorem Small.tail {k : Nat} {f : Frame} {inner : List Frame} (h : Small k (f :: inner)) :
+    Small k inner :=
+  fun g hg => h g (List.mem_cons_of_mem _ hg)
+
+theorem Small.head {k : Nat} {id : Option Nat} {ds : List Stmts} {inner : List Frame}
+    (h : Small k ((id, ds) :: inner)) : ∀ b ∈ ds, Closed b ∧ deferDepth b < k :=
+  fun b hb => h (id, ds) (List.mem_cons_self ..) b hb
+
+theorem Covered.push_block {ctx : Ctx} {inner : List Frame} (label : Option Nat)
+    (h : Covered ctx inner) : Covered (pushLabel label ctx) ((label, []) :: inner) := by
+  intro l hl
+  by_cases e : label = some l
+  · exact ⟨(label, []), List.mem_cons_self .., e⟩
+  · rw [lookupLabel_push_ne l label ctx e] at hl
+    obtain ⟨f, hf, hfl⟩ := h l hl
+    exact ⟨f, List.mem_cons_of_mem _ hf, hfl⟩
+
+theorem Covered.push_loop {ctx : Ctx} {inner : List Frame} (label : Nat)
+    (h : Covered ctx inner) :
+    Covered ((label, true) :: ctx) ((none, []) :: (some label, []) :: inner) := by
+  intro l hl
+  by_cases e : label = l
+  · exact ⟨(some label, []), by simp, by simp [e]⟩
+  · simp only [lookupLabel, e, if_false] at hl
+    obtain ⟨f, hf, hfl⟩ := h l hl
+    exact ⟨f, List.mem_cons_of_mem _ (List.mem_cons_of_mem _ hf), hfl⟩
+
+theorem emitDefers_total (emit : Emit) (k : Nat) (hT : EmitTotal emit k) (fr : List Frame) :
+    ∀ ds : List Stmts, (∀ b ∈ ds, Closed b ∧ deferDepth b < k) → ∃ t, emitDefers emit ds fr = some t
+  | [] => fun _ => ⟨_, rfl⟩
+  | b :: ds => by
+    intro h
+    obtain ⟨hb1, hb2⟩ := h b (List.mem_cons_self ..)
+    obtain ⟨tb, htb⟩ := hT b fr hb1 hb2
+    obtain ⟨r, hr⟩ := emitDefers_total emit k hT fr ds (fun b' hb' => h b' (List.mem_cons_of_mem _ hb'))
+    exact ⟨Ts.append tb r, by simp [emitDefers, htb, hr]⟩
+
+/-- `run_defers_up_to` succeeds when it stops inside the part `pre` of the stack whose bodies
+`emit` can compile (or when that part is the whole stack) -/
+theorem defersUpTo_total (emit : Emit) (k : Nat) (hT : EmitTotal emit k) (l : Nat) (X : List Frame) :
+    ∀ pre : List Frame, Small k pre → (X = [] ∨ ∃ f ∈ pre, f.1 = some l) →
+    ∃ t, defersUpTo emit l (pre ++ X) = some t
+  | [] => by
+    intro _ h
+    rcases h with rfl | ⟨f, hf, _⟩
+    · exact ⟨_, rfl⟩
+    · simp at hf
+  | (id, ds) :: pre => by
+    intro hS h
+    obtain ⟨t, ht⟩ := emitDefers_total emit k hT ((id, ds) :: (pre ++ X)) ds hS.head
+    show ∃ t, defersUpTo emit l ((id, ds) :: (pre ++ X)) = some t
+    by_cases hid : id = some l
+    · subst hid
+      exact ⟨t, by simp [defersUpTo, ht]⟩
+    · have h' : X = [] ∨ ∃ f ∈ pre, f.1 = some l := by
+        rcases h with h | ⟨f, hf, hfl⟩
+        · exact .inl h
+        · rcases List.mem_cons.1 hf with rfl | hf
+          · exact absurd hfl hid
+          · exact .inr ⟨f, hf, hfl⟩
+      obtain ⟨r, hr⟩ := defersUpTo_total emit k hT l X pre hS.tail h'
+      exact ⟨Ts.append t r, by simp [defersUpTo, ht, hid, hr]⟩
+
+theorem closeBlock_total (emit : Emit) (k : Nat) (hT : EmitTotal emit k) (tb : Ts)
+    (label : Option Nat) (ds' : List Stmts) (below : List Frame) (stopb : Bool)
+    (h : ∀ b ∈ ds', Closed b ∧ deferDepth b < k) :
+    ∃ ex, closeBlock emit (some (tb, (label, ds') :: below, stopb)) = some (tb, ex) := by
+  cases stopb
+  · obtain ⟨ex, hex⟩ := emitDefers_total emit k hT below ds' h
+    exact ⟨ex, by simp [closeBlock, hex]⟩
+  · exact ⟨.nil, by simp [closeBlock]⟩
+
+mutual
+/-- Compilation under the stack `(id, ds) :: inner ++ X` succeeds and changes only the top
+frame's registrations. Either `X = []` (then a jump may unwind the whole stack) or the statement
+is well scoped and every label of its context has a frame in `(id, ds) :: inner` (then a jump
+never looks at `X`). -/
+theorem tot_stmt (emit : Emit) (k : Nat) (hT : EmitTotal emit k) (X : List Frame) : (s : Stmt) →
+    ∀ ctx id ds inner, contScopedStmt s ctx = true →
+    (X = [] ∨ (wellScopedStmt s ctx = true ∧ Covered ctx ((id, ds) :: inner))) →
+    Small k ((id, ds) :: inner) → deferDepthStmt s ≤ k →
+    ∃ ts ds' stop, compileStmt emit s ((id, ds) :: (inner ++ X)) =
+        some (ts, (id, ds') :: (inner ++ X), stop) ∧ Small k ((id, ds') :: inner)
+  | .print c => fun ctx id ds inner _ _ hS _ => ⟨_, ds, _, rfl, hS⟩
+  | .defer b => by
+    intro ctx id ds inner hw _ hS hk
+    refine ⟨_, b :: ds, _, rfl, ?_⟩
+    simp only [contScopedStmt] at hw
+    simp only [deferDepthStmt] at hk
+    intro f hf b' hb'
+    rcases List.mem_cons.1 hf with rfl | hf
+    · rcases List.mem_cons.1 hb' with rfl | hb'
+      · exact ⟨hw, by omega⟩
+      · exact hS.head b' hb'
+    · exact hS f (List.mem_cons_of_mem _ hf) b' hb'
+  | .brk l => by
+    intro ctx id ds inner _ hj hS _
+    have hj' : X = [] ∨ ∃ f ∈ (id, ds) :: inner, f.1 = some l := by
+      rcases hj with h | ⟨hw, hcov⟩
+      · exact .inl h
+      · exact .inr (hcov l (by simpa [wellScopedStmt] using hw))
+    obtain ⟨code, hcode⟩ := defersUpTo_total emit k hT l X ((id, ds) :: inner) hS hj'
+    have hcode' : defersUpTo emit l ((id, ds) :: (inner ++ X)) = some code := hcode
+    exact ⟨.cons (.jump false l code) .nil, ds, true, by simp only [compileStmt, hcode', Option.map_some], hS⟩
+  | .cont l => by
+    intro ctx id ds inner _ hj hS _
+    have hj' : X = [] ∨ ∃ f ∈ (id, ds) :: inner, f.1 = some l := by
+      rcases hj with h | ⟨hw, hcov⟩
+      · exact .inl h
+      · refine .inr (hcov l ?_)
+        simp only [wellScopedStmt, beq_iff_eq] at hw
+        simp [hw]
+    obtain ⟨code, hcode⟩ := defersUpTo_total emit k hT l X ((id, ds) :: inner) hS hj'
+    have hcode' : defersUpTo emit l ((id, ds) :: (inner ++ X)) = some code := hcode
+    exact ⟨.cons (.jump true l code) .nil, ds, true, by simp only [compileStmt, hcode', Option.map_some], hS⟩
+  | .tryS l => by
+    intro ctx id ds inner _ hj hS _
+    have hj' : X = [] ∨ ∃ f ∈ (id, ds) :: inner, f.1 = some l := by
+      rcases hj with h | ⟨hw, hcov⟩
+      · exact .inl h
+      · exact .inr (hcov l (by simpa [wellScopedStmt] using hw))
+    obtain ⟨code, hcode⟩ := defersUpTo_total emit k hT l X ((id, ds) :: inner) hS hj'
+    have hcode' : defersUpTo emit l ((id, ds) :: (inner ++ X)) = some code := hcode
+    exact ⟨.cons (.tryT l code) .nil, ds, false, by simp only [compileStmt, hcode', Option.map_some], hS⟩
+  | .block label body => by
+    intro ctx id ds inner hw hj hS hk
+    simp only [contScopedStmt] at hw
+    simp only [deferDepthStmt] at hk
+    have hj' : X = [] ∨ (wellScoped body (pushLabel label ctx) = true ∧
+        Covered (pushLabel label ctx) ((label, []) :: (id, ds) :: inner)) := by
+      rcases hj with h | ⟨hws, hcov⟩
+      · exact .inl h
+      · simp only [wellScopedStmt] at hws
+        exact .inr ⟨hws, hcov.push_block label⟩
+    obtain ⟨tb, ds', stopb, hcb, hSb⟩ := tot_stmts emit k hT X body (pushLabel label ctx) label []
+      ((id, ds) :: inner) hw hj' (hS.push label) hk
+    have hcb' : compileStmts emit body ((label, []) :: (id, ds) :: (inner ++ X)) =
+        some (tb, (label, ds') :: (id, ds) :: (inner ++ X), stopb) := hcb
+    obtain ⟨ex, hex⟩ := closeBlock_total emit k hT tb label ds' ((id, ds) :: (inner ++ X)) stopb hSb.head
+    exact ⟨.cons (.block label tb ex) .nil, ds, false, by simp only [compileStmt, hcb', hex], hS⟩
+  | .ifS body => by
+    intro ctx id ds inner hw hj hS hk
+    simp only [contScopedStmt] at hw
+    simp only [deferDepthStmt] at hk
+    have hj' : X = [] ∨ (wellScoped body ctx = true ∧
+        Covered ctx ((none, []) :: (id, ds) :: inner)) := by
+      rcases hj with h | ⟨hws, hcov⟩
+      · exact .inl h
+      · simp only [wellScopedStmt] at hws
+        exact .inr ⟨hws, hcov.push_block none⟩
+    obtain ⟨tb, ds', stopb, hcb, hSb⟩ := tot_stmts emit k hT X body ctx none []
+      ((id, ds) :: inner) hw hj' (hS.push none) hk
+    have hcb' : compileStmts emit body ((none, []) :: (id, ds) :: (inner ++ X)) =
+        some (tb, (none, ds') :: (id, ds) :: (inner ++ X), stopb) := hcb
+    obtain ⟨ex, hex⟩ := closeBlock_total emit k hT tb none ds' ((id, ds) :: (inner ++ X)) stopb hSb.head
+    exact ⟨.cons (.ifT tb ex) .nil, ds, false, by simp only [compileStmt, hcb', hex], hS⟩
+  | .loop label body => by
+    intro ctx id ds inner hw hj hS hk
+    simp only [contScopedStmt] at hw
+    simp only [deferDepthStmt] at hk
+    have hj' : X = [] ∨ (wellScoped body ((label, true) :: ctx) = true ∧
+        Covered ((label, true) :: ctx) ((none, []) :: (some label, []) :: (id, ds) :: inner)) := by
+      rcases hj with h | ⟨hws, hcov⟩
+      · exact .inl h
+      · simp only [wellScopedStmt] at hws
+        exact .inr ⟨hws, hcov.push_loop label⟩
+    obtain ⟨tb, ds', stopb, hcb, hSb⟩ := tot_stmts emit k hT X body ((label, true) :: ctx) none []
+      ((some label, []) :: (id, ds) :: inner) hw hj' ((hS.push (some label)).push none) hk
+    have hcb' : compileStmts emit body ((none, []) :: (some label, []) :: (id, ds) :: (inner ++ X)) =
+        some (tb, (none, ds') :: (some label, []) :: (id, ds) :: (inner ++ X), stopb) := hcb
+    obtain ⟨ex, hex⟩ := closeBlock_total emit k hT tb none ds'
+      ((some label, []) :: (id, ds) :: (inner ++ X)) stopb hSb.head
+    exact ⟨.cons (.loop label tb ex) .nil, ds, false, by simp only [compileStmt, hcb', hex], hS⟩
+theorem tot_stmts (emit : Emit) (k : Nat) (hT : EmitTotal emit k) (X : List Frame) : (ss : Stmts) →
+    ∀ ctx id ds inner, contScoped ss ctx = true →
+    (X = [] ∨ (wellScoped ss ctx = true ∧ Covered ctx ((id, ds) :: inner))) →
+    Small k ((id, ds) :: inner) → deferDepth ss ≤ k →
+    ∃ ts ds' stop, compileStmts emit ss ((id, ds) :: (inner ++ X)) =
+        some (ts, (id, ds') :: (inner ++ X), stop) ∧ Small k ((id, ds') :: inner)
+  | .nil => fun ctx id ds inner _ _ hS _ => ⟨_, ds, _, rfl, hS⟩
+  | .cons s r => by
+    intro ctx id ds inner hw hj hS hk
+    simp only [contScoped, Bool.and_eq_true] at hw
+    simp only [deferDepth] at hk
+    have hj1 : X = [] ∨ (wellScopedStmt s ctx = true ∧ Covered ctx ((id, ds) :: inner)) := by
+      rcases hj with h | ⟨hws, hcov⟩
+      · exact .inl h
+      · simp only [wellScoped, Bool.and_eq_true] at hws
+        exact .inr ⟨hws.1, hcov⟩
+    obtain ⟨ts1, ds1, stop1, hc1, hS1⟩ := tot_stmt emit k hT X s ctx id ds inner hw.1 hj1 hS (by omega)
+    cases stop1 with
+    | true => exact ⟨ts1, ds1, true, by simp only [compileStmts, hc1, if_true], hS1⟩
+    | false =>
+      have hj2 : X = [] ∨ (wellScoped r ctx = true ∧ Covered ctx ((id, ds1) :: inner)) := by
+        rcases hj with h | ⟨hws, hcov⟩
+        · exact .inl h
+        · simp only [wellScoped, Bool.and_eq_true] at hws
+          refine .inr ⟨hws.2, ?_⟩
+          intro l hl
+          obtain ⟨f, hf, hfl⟩ := hcov l hl
+          rcases List.mem_cons.1 hf with rfl | hf
+          · exact ⟨(id, ds1), List.mem_cons_self .., hfl⟩
+          · exact ⟨f, List.mem_cons_of_mem _ hf, hfl⟩
+      obtain ⟨tr, ds2, stop2, hc2, hS2⟩ := tot_stmts emit k hT X r ctx id ds1 inner hw.2 hj2 hS1 (by omega)
+      exact ⟨Ts.append ts1 tr, ds2, stop2, by simp only [compileStmts, hc1, hc2, Bool.false_eq_true, if_false], hS2⟩
+end
+
+theorem compileDeferred_total : ∀ n, EmitTotal (compileDeferred n) n
+  | 0 => by intro b fr _ h; omega
+  | n + 1 => by
+    intro b fr hb hd
+    have hT := compileDeferred_total n
+    obtain ⟨tb, ds', stopb, hcb, hS⟩ := tot_stmts (compileDeferred n) n hT fr b [] none [] []
+      (wellScoped_contScoped b [] hb) (.inr ⟨hb, fun l hl => by simp [lookupLabel] at hl⟩)
+      (Small.push none (fun _ h => by simp at h)) (by omega)
+    have hcb' : compileStmts (compileDeferred n) b ((none, []) :: fr) =
+        some (tb, (none, ds') :: fr, stopb) := hcb
+    obtain ⟨ex, hex⟩ := closeBlock_total (compileDeferred n) n hT tb none ds' fr stopb hS.head
+    exact ⟨.cons (.block none tb ex) .nil, by simp only [compileDeferred, hcb', hex]⟩
+
 /-! ### whole programs -/
 
-theorem compileProgram_isSome (body : Stmts) : (compileProgram body).isSome = true := by
-  obtain ⟨tb, ds', hc⟩ := compileStmts_some body (some 0) [] []
-  simp [compileProgram, hc]
+/-- The compiler neither hits `expect("block didn't add to defer stack")` nor re-enters
+`run_defers_up_to` without end: a deferred body whose jumps stay inside it is compiled while
+compiling at most `deferDepth body` enclosing deferred bodies. -/
+theorem compileProgram_isSome (body : Stmts) (hw : contScoped body [(0, false)] = true) :
+    (compileProgram body).isSome = true := by
+  have hT := compileDeferred_total (deferDepth body)
+  obtain ⟨tb, ds', stopb, hcb, hS⟩ := tot_stmts _ _ hT [] body [(0, false)] (some 0) [] []
+    hw (.inl rfl) (Small.push (some 0) (fun _ h => by simp at h)) (Nat.le_refl _)
+  have hcb' : compileStmts (compileDeferred (deferDepth body)) body [(some 0, [])] =
+      some (tb, [(some 0, ds')], stopb) := hcb
+  obtain ⟨ex, hex⟩ := closeBlock_total _ _ hT tb (some 0) ds' [] stopb hS.head
+  simp only [compileProgram, hcb', hex, Option.isSome_some]
+
+/-- whatever the compiler produces for a `contScoped` body prints what the structural
+semantics prescribes -/
+theorem compileProgram_sound (fuel : Nat) (body : Stmts) (oracle : List Bool)
+    (hw : contScoped body [(0, false)] = true) (t : T) (hc : compileProgram body = some t) :
+    (execT fuel t { trace := [], oracle }).2.trace.reverse = runSpec fuel body oracle := by
+  simp only [compileProgram] at hc
+  rcases hcl : closeBlock (compileDeferred (deferDepth body))
+      (compileStmts (compileDeferred (deferDepth body)) body [(some 0, [])]) with _ | ⟨tb, ex⟩
+  · rw [hcl] at hc; simp at hc
+  rw [hcl] at hc
+  simp only [Option.some.injEq] at hc
+  subst hc
+  have hE := compileDeferred_ok fuel (deferDepth body)
+  have key := body_sim fuel _ hE body (some 0) [] tb ex { trace := [], oracle } FramesClosed.nil hcl
+    (fun tb' frb stopb hcb => sim_stmts fuel _ hE body [(0, false)] (some 0) [] [] tb' frb stopb _
+      hw (FramesClosed.nil.push (some 0)) hcb)
+  simp only [runSpec, execS, execT_block]
+  rcases hB : execBlockS fuel body { trace := [], oracle } with ⟨sigB, stB⟩
+  rcases hT : blockT fuel tb ex { trace := [], oracle } with ⟨sigT, stT⟩
+  rw [hB, hT] at key
+  obtain ⟨h1, h2⟩ := key
+  simp only at h1 h2
+  subst h1
+  cases sigT with
+  | normal =>
+    simp only [Debt] at h2; subst h2
+    simp
+  | brk l =>
+    simp only [Debt, unwindS, List.map_nil, runRegs_nil, ite_self] at h2
+    subst h2
+    by_cases hl : 0 = l <;> simp [hl]
+  | cont l =>
+    simp only [Debt, unwindS, List.map_nil, runRegs_nil, ite_self] at h2
+    subst h2
+    simp
 
 theorem runCompiled_eq_runSpec (fuel : Nat) (body : Stmts) (oracle : List Bool)
     (hw : contScoped body [(0, false)] = true) :
     runCompiled fuel body oracle = some (runSpec fuel body oracle) := by
-  obtain ⟨tb, ds', hc⟩ := compileStmts_some body (some 0) [] []
-  have ih := sim_stmts fuel body [(0, false)] (some 0) [] [] tb _ { trace := [], oracle } hw hc
-  simp only [runCompiled, compileProgram, hc, Option.map_some, runSpec, execS, execT, execBlockS_eq]
-  rcases hb : execStmtsS fuel body [] { trace := [], oracle } with ⟨sigB, regsB, stB⟩
-  rcases hT : execTs fuel tb { trace := [], oracle } with ⟨sigT, stT⟩
-  rw [hb, hT] at ih
-  obtain ⟨⟨h1, h2⟩, h3⟩ := ih
-  simp only at h1 h2 h3
-  subst h1
-  cases sigT with
-  | normal =>
-    have := h3 rfl
-    simp only [List.cons.injEq, Prod.mk.injEq, and_true, true_and] at this
-    subst this
-    simp only [Debt] at h2; subst h2
-    simp [topDefers]
-  | brk l =>
-    simp only [Debt] at h2
-    rw [defersUpTo_cons] at h2
-    have h2' : stT = stB.emits regsB := by
-      rw [h2]; split <;> simp [defersUpTo]
-    subst h2'
-    by_cases hl : 0 = l <;> simp [hl]
-  | cont l =>
-    simp only [Debt] at h2
-    rw [defersUpTo_cons] at h2
-    have h2' : stT = stB.emits regsB := by
-      rw [h2]; split <;> simp [defersUpTo]
-    subst h2'
-    simp
+  obtain ⟨t, ht⟩ := Option.isSome_iff_exists.1 (compileProgram_isSome body hw)
+  simp only [runCompiled, ht, Option.map_some, compileProgram_sound fuel body oracle hw t ht]
 
 /-! ### facts about the structural semantics used by the corollaries of C03 -/
 
-/-- the `defer`s that stand directly in a statement list, in program order -/
-def registeredDefers : Stmts → List Nat
+/-- the bodies of the `defer`s that stand directly in a statement list, in program order -/
+def registeredBodies : Stmts → List Stmts
   | .nil => []
-  | .cons (.defer c) rest => c :: registeredDefers rest
-  | .cons _ rest => registeredDefers rest
+  | .cons (.defer b) rest => b :: registeredBodies rest
+  | .cons _ rest => registeredBodies rest
 
 def Stmts.append : Stmts → Stmts → Stmts
   | .nil, b => b
   | .cons s r, b => .cons s (Stmts.append r b)
 
+/-- running `defer { print c }` prints `c` -/
+theorem runner_print (fuel c : Nat) (st : St) :
+    runner fuel (.cons (.print c) .nil) st = st.emit c := by
+  simp [runner, execBlockS_eq, execStmtsS, execS]
+
+/-- running registered `defer { print c }`s prints their events in order -/
+theorem runRegs_prints (fuel : Nat) : ∀ (cs : List Nat) (st : St),
+    runRegs (cs.map fun c => runner fuel (.cons (.print c) .nil)) st = st.emits cs
+  | [], st => rfl
+  | c :: cs, st => by
+    simp only [List.map_cons, runRegs_cons, St.emits_cons, runner_print]
+    exact runRegs_prints fuel cs _
+
 /-- only `defer` changes the registrations of the enclosing block -/
-theorem execS_regs (fuel : Nat) (s : Stmt) (regs : List Nat) (st : St) :
-    (execS fuel s regs st).2.1 = match s with | .defer c => c :: regs | _ => regs := by
+theorem execS_regs (fuel : Nat) (s : Stmt) (regs : List Reg) (st : St) :
+    (execS fuel s regs st).2.1 = match s with | .defer b => runner fuel b :: regs | _ => regs := by
   cases s <;> simp only [execS] <;> (repeat' split) <;> rfl
 
 /-- along a statement list that runs to its end the registrations are exactly the list's
 `defer`s, newest first -/
 theorem execStmtsS_regs (fuel : Nat) : (ss : Stmts) → ∀ regs st,
     (execStmtsS fuel ss regs st).1 = .normal →
-      (execStmtsS fuel ss regs st).2.1 = (registeredDefers ss).reverse ++ regs
-  | .nil => by intro regs st _; simp [execStmtsS, registeredDefers]
+      (execStmtsS fuel ss regs st).2.1 = (registeredBodies ss).reverse.map (runner fuel) ++ regs
+  | .nil => by intro regs st _; simp [execStmtsS, registeredBodies]
   | .cons s r => by
     intro regs st h
     have hr := execS_regs fuel s regs st
@@ -636,7 +1314,7 @@ theorem execStmtsS_regs (fuel : Nat) : (ss : Stmts) → ∀ regs st,
     | normal =>
       simp only at h hr ⊢
       rw [execStmtsS_regs fuel r regs1 st1 h, hr]
-      cases s <;> simp [registeredDefers]
+      cases s <;> simp [registeredBodies]
     | brk l => simp at h
     | cont l => simp at h
 
@@ -657,10 +1335,10 @@ theorem execStmtsS_dead (fuel : Nat) (j : Stmt) (hj : (∃ l, j = .brk l) ∨ (
     | brk l => rfl
     | cont l => rfl
 
-/-- `loop l { defer c; print p; cont l; dead }` with `k` positive decisions left -/
+/-- `loop l { defer { print c }; print p; cont l; dead }` with `k` positive decisions left -/
 theorem iter_defer_cont (fuel l c p : Nat) (dead : Stmts) : ∀ k n (st : St), k < n →
     st.oracle = List.replicate k true →
-    iter (loopStepS fuel l (.cons (.defer c) (.cons (.print p) (.cons (.cont l) dead)))) n st =
+    iter (loopStepS fuel l (.cons (.deferP c) (.cons (.print p) (.cons (.cont l) dead)))) n st =
       (.normal, { trace := (List.replicate k [c, p]).flatten ++ st.trace, oracle := [] })
   | 0, n + 1, st => by
     intro _ ho
@@ -675,8 +1353,9 @@ theorem iter_defer_cont (fuel l c p : Nat) (dead : Stmts) : ∀ k n (st : St), k
     subst ho
     have ih := iter_defer_cont fuel l c p dead k n
       { trace := c :: p :: tr, oracle := List.replicate k true } (by omega) rfl
-    simp only [iter, loopStepS, St.decide, execBlockS_eq, execStmtsS, execS, St.emit, St.emits_cons,
-      St.emits_nil, if_true]
+    simp only [iter, loopStepS, St.decide, execBlockS_eq, execStmtsS, execS, Stmt.deferP, St.emit,
+      runRegs_cons, runRegs_nil, loopNext, if_true]
+    simp only [Stmt.deferP] at ih
     rw [ih]
     simp [List.replicate_succ']
   | _, 0, _ => by intro h; omega
@@ -686,40 +1365,41 @@ Loops pushed no defer frame (so a `break` to the loop's label found no frame wit
 ran every frame of the function) and `continue` ran nothing. Everything else is `compileStmt`. -/
 
 mutual
-def compileStmtOld : Stmt → List Frame → Option (Ts × List Frame × Bool)
+def compileStmtOld (emit : Emit) : Stmt → List Frame → Option (Ts × List Frame × Bool)
   | .print c, fr => some (.cons (.emit c) .nil, fr, false)
-  | .defer c, fr => (registerDefer c fr).map fun fr' => (.nil, fr', false)
+  | .defer b, fr => (registerDefer b fr).map fun fr' => (.nil, fr', false)
   | .block label body, fr =>
-    match compileStmtsOld body ((label, []) :: fr) with
+    match closeBlock emit (compileStmtsOld emit body ((label, []) :: fr)) with
     | none => none
-    | some (tb, fr') => some (.cons (.block label tb (topDefers fr')) .nil, fr, false)
+    | some (tb, ex) => some (.cons (.block label tb ex) .nil, fr, false)
   | .loop label body, fr =>
-    match compileStmtsOld body ((none, []) :: fr) with
+    match closeBlock emit (compileStmtsOld emit body ((none, []) :: fr)) with
     | none => none
-    | some (tb, fr') => some (.cons (.loop label tb (topDefers fr')) .nil, fr, false)
+    | some (tb, ex) => some (.cons (.loop label tb ex) .nil, fr, false)
   | .ifS body, fr =>
-    match compileStmtsOld body ((none, []) :: fr) with
+    match closeBlock emit (compileStmtsOld emit body ((none, []) :: fr)) with
     | none => none
-    | some (tb, fr') => some (.cons (.ifT tb (topDefers fr')) .nil, fr, false)
-  | .brk l, fr => some (.cons (.jump false l (defersUpTo l fr)) .nil, fr, true)
-  | .cont l, fr => some (.cons (.jump true l []) .nil, fr, true)
-  | .tryS l, fr => some (.cons (.tryT l (defersUpTo l fr)) .nil, fr, false)
-def compileStmtsOld : Stmts → List Frame → Option (Ts × List Frame)
-  | .nil, fr => some (.nil, fr)
+    | some (tb, ex) => some (.cons (.ifT tb ex) .nil, fr, false)
+  | .brk l, fr => (defersUpTo emit l fr).map fun code => (.cons (.jump false l code) .nil, fr, true)
+  | .cont l, fr => some (.cons (.jump true l .nil) .nil, fr, true)
+  | .tryS l, fr => (defersUpTo emit l fr).map fun code => (.cons (.tryT l code) .nil, fr, false)
+def compileStmtsOld (emit : Emit) : Stmts → List Frame → Option (Ts × List Frame × Bool)
+  | .nil, fr => some (.nil, fr, false)
   | .cons s rest, fr =>
-    match compileStmtOld s fr with
+    match compileStmtOld emit s fr with
     | none => none
     | some (ts, fr', stop) =>
-      if stop then some (ts, fr') else
-      match compileStmtsOld rest fr' with
+      if stop then some (ts, fr', true) else
+      match compileStmtsOld emit rest fr' with
       | none => none
-      | some (tr, fr'') => some (Ts.append ts tr, fr'')
+      | some (tr, fr'', stop') => some (Ts.append ts tr, fr'', stop')
 end
 
 def runCompiledOld (fuel : Nat) (body : Stmts) (oracle : List Bool) : Option (List Nat) :=
-  match compileStmtsOld body [(some 0, [])] with
+  let emit := compileDeferred (deferDepth body)
+  match closeBlock emit (compileStmtsOld emit body [(some 0, [])]) with
   | none => none
-  | some (tb, fr') =>
-    some (execT fuel (.block (some 0) tb (topDefers fr')) { trace := [], oracle }).2.trace.reverse
+  | some (tb, ex) =>
+    some (execT fuel (.block (some 0) tb ex) { trace := [], oracle }).2.trace.reverse
 
 end CapyV.Defer
